@@ -13,6 +13,8 @@ R7.10 a rendered method is never served from a cache keyed by the operation alon
 R7.11 sanitize_method_name returns a valid ASCII identifier for every input (string-shape interpretation)              [= R20.1]
 R7.12 no key of the Paths Object other than an `x-` extension is taken out before parse_operations sees it (filter evaluated per key)
 R7.13 the list of rendered methods reaches the class writer whole: never re-bound / shortened, written element by element without a skip
+R7.14 no tag attribute of APIClient can take the name of one of the class's own members (`transport`, `request`, `close`, `_base_url`): the
+      fixed member names of the class template are refused by the function that derives the attribute name
 R7.7  the tag grouping key is at least as coarse as the module / class names derived from a tag (no two groups share a file)
 R7.5  no filter between grouping and emission: every operation of a tag is visited, every tag yields a file, a
       class entry and an APIClient property
@@ -20,7 +22,7 @@ R7.5  no filter between grouping and emission: every operation of a tag is visit
 from __future__ import annotations
 
 import ast
-from typing import List, Optional, Set
+from typing import Dict, List, Optional, Set
 
 from rules._tags import grouping_of, naming_of
 from rules.c20 import _dedup_site
@@ -59,8 +61,84 @@ class _R711:
         pass
 
 
+def rule_tag_attrs_spare_client_members(repo: Repo, rep, rule: str = "R7.14") -> None:
+    """APIClient gets one property `def <attr>(self)` and one slot `self._<attr>` per tag, next to members of its own (`self.transport`,
+    `self._base_url`, `async def request`, `async def close`).  A tag whose attribute name equals one of those replaces it: tag `Transport` ->
+    the property shadows the attribute every tag client is built from; tag `Request` / `Close` -> the later method definition replaces the
+    property and the tag's operations are unreachable; tag `Base URL` -> `self._base_url` holds a tag client instead of the URL.  Decided:
+    every fixed member name of the class template (read from its constant lines) is refused by the sanitiser the attribute name comes from."""
+    import keyword as _kw
+    import re as _re
+
+    fn = repo.func("visit.client_visitor:ClientVisitor._generate_client_implementation")
+    public: Dict[str, ast.AST] = {}
+    private: Dict[str, ast.AST] = {}
+    per_tag_def = per_tag_slot = 0
+    for c in calls_in(fn.node):
+        if not (isinstance(c.func, ast.Attribute) and c.func.attr == "write_line" and c.args):
+            continue
+        a = c.args[0]
+        if isinstance(a, ast.JoinedStr):
+            txt = "".join(v.value if isinstance(v, ast.Constant) else "{}" for v in a.values)
+            if _re.match(r"^def \{\}\(self", txt):
+                per_tag_def += 1
+            if _re.match(r"^self\._\{\}\s*(:[^=]*)?=", txt):
+                per_tag_slot += 1
+            continue
+        txt = const_str(a)
+        if txt is None:
+            continue
+        m = _re.match(r"^(?:async )?def ([A-Za-z_][A-Za-z0-9_]*)\(self", txt)
+        if m and not m.group(1).startswith("__"):
+            public.setdefault(m.group(1), c)
+        m = _re.match(r"^self\.(_?)([A-Za-z][A-Za-z0-9_]*)\s*(?::[^=]*)?=[^=]", txt)
+        if m:
+            (private if m.group(1) else public).setdefault(m.group(2), c)
+    if not per_tag_def or not per_tag_slot:
+        raise AnalysisError(f"{rule}: the per-tag property `def {{attr}}(self)` / slot `self._{{attr}}` templates of APIClient were not found (anchor)")
+    rep.count(f"{rule}:client_members", {"public": sorted(public), "private_slots": sorted(private)})
+    rep.require(len(public) + len(private) >= 4, f"{rule}: only {len(public) + len(private)} fixed members of the APIClient template found (floor 4)")
+    # where the attribute name comes from: the third component of tag_tuples in ClientVisitor.visit
+    visit = repo.func("visit.client_visitor:ClientVisitor.visit")
+    derivs = {c.func.attr for c in calls_in(visit.node) if isinstance(c.func, ast.Attribute) and c.func.attr.startswith("sanitize_") and "class" not in c.func.attr}
+    if not derivs:
+        from sa.flatten import flatten
+
+        derivs = {c.func.attr for c in calls_in(flatten(visit).node) if isinstance(c.func, ast.Attribute) and c.func.attr.startswith("sanitize_") and "class" not in c.func.attr}
+    if not derivs:
+        raise AnalysisError(f"{rule}: the derivation of the tag attribute name (a NameSanitizer call in ClientVisitor.visit) was not found (anchor)")
+    ns = repo.module("core.utils").classes.get("NameSanitizer")
+    refused: Set[str] = set()
+    tables: Dict[str, Set[str]] = {}
+    if ns is not None:
+        for st in ns.node.body:
+            if isinstance(st, (ast.Assign, ast.AnnAssign)) and isinstance(st.value, (ast.Set, ast.List, ast.Tuple)):
+                tg = st.targets[0] if isinstance(st, ast.Assign) else st.target
+                if isinstance(tg, ast.Name):
+                    tables[tg.id] = {const_str(e) for e in st.value.elts if const_str(e)}
+        for d in derivs:
+            m_ = ns.methods.get(d)
+            if m_ is not None:
+                for x in ast.walk(m_.node):
+                    if isinstance(x, ast.Attribute) and x.attr in tables:
+                        refused |= tables[x.attr]
+                    if isinstance(x, ast.Name) and x.id in tables:
+                        refused |= tables[x.id]
+    for nm, c in sorted(list(public.items()) + [("_" + k, v) for k, v in private.items()]):
+        bare = nm.lstrip("_")
+        sub = f"{fn.module.relpath}:APIClient member `{nm}` vs. tag attributes"
+        if _kw.iskeyword(bare) or bare in refused:
+            rep.ok(rule, sub, f"a tag cannot get the attribute name `{bare}` (refused by {'/'.join(sorted(derivs))})", fn.loc(c))
+        else:
+            what = (f"the property `def {bare}(self)` of a tag spelled `{bare}` and the class's own `{nm}` are one attribute" if not nm.startswith("_") else
+                    f"the slot `self.{nm}` of a tag spelled `{bare}` overwrites the class's own `self.{nm}`")
+            rep.violation(rule, sub, f"{fn.fq}|tag-attr-vs-member|{nm}",
+                          f"{what}: the tag's operations (or every operation of the client) are unreachable through APIClient, and nothing is reported", fn.loc(c))
+
+
 def run(repo: Repo, rep: Report, tier: str) -> None:
     po = repo.func("core.loader.operations.parser:parse_operations")
+    rule_tag_attrs_spare_client_members(repo, rep, "R7.14")
     # ---------------------------------------------------------------- R7.10 / R7.11
     from rules._memo import persistent_memo_rule
 
